@@ -18,7 +18,7 @@ import (
 
 func init() {
 	register("C05",
-		"WRAP: ClientHandshake/ServerHandshake hand gRPC the *NoiseGrpcConn itself (never the raw transport), and NoiseGrpcConn declares its own Read/Write, so gRPC can only write through the encrypting connection. TAINT-WIRE (relay level): the buffer given to NoiseGrpcConn.Write / NoiseConn.Write flows only into WriteMessage (plus len/slicing); the only functions in mailbox that call Write on a transport-typed value are Machine.Flush and the handshake writer, whose arguments are ciphertext (C08/C16 rules, re-checked here); connKit.Write wraps exactly its argument into one MsgData. FRAME: one Noise write = one control message = one GBN message: connKit.Write performs exactly one SendControlMsg outside any loop and reports len(b) only after it succeeded; SendControlMsg is one Serialize + one gbn Send of exactly those bytes; ReceiveControlMsg is one gbn Recv + Deserialize of exactly those bytes; connKit.Read buffers the whole payload. RDC-1/2/3 (as C15) for every Read/Write method of mailbox. LOCKBAL: in mailbox no mutex is re-locked on a path that may still hold it and no function returns holding a mutex without a deferred unlock (the retry loops of the transport callbacks cannot wedge themselves). RETRY: ConnectSend/ConnectReceive of every client transport and the server's create*MailBox functions never report success without installing a freshly created stream, and in the four transport callbacks a failed stream operation reaches the next attempt only through the re-create call (a dead stream is never retried forever). DUPLEX: the read path (ReadMessage/ReadHeader/ReadBody) and the write path (WriteMessage/Flush) of the record layer touch disjoint Machine fields, Encrypt on the write path seals into a fresh buffer, and NoiseGrpcConn.Read/Write do not write fields the other uses - which is what makes their concurrent execution under the read lock sound. Not decided (runtime): delivery and completion under relay drops / stream re-creation and the interleavings of the four endpoint goroutines - no static argument in reach bounds those.",
+		"WRAP: ClientHandshake/ServerHandshake hand gRPC the *NoiseGrpcConn itself (never the raw transport), and NoiseGrpcConn declares its own Read/Write, so gRPC can only write through the encrypting connection. TAINT-WIRE (relay level): the buffer given to NoiseGrpcConn.Write / NoiseConn.Write flows only into WriteMessage (plus len/slicing); the only functions in mailbox that call Write on a transport-typed value are Machine.Flush and the handshake writer, whose arguments are ciphertext (C08/C16 rules, re-checked here); connKit.Write wraps exactly its argument into one MsgData. FRAME: one Noise write = one control message = one GBN message: connKit.Write performs exactly one SendControlMsg outside any loop and reports len(b) only after it succeeded; SendControlMsg is one Serialize + one gbn Send of exactly those bytes; ReceiveControlMsg is one gbn Recv + Deserialize of exactly those bytes; connKit.Read buffers the whole payload. RDC-1/2/3 (as C15) for every Read/Write method of mailbox. LOCKBAL: in mailbox no mutex is re-locked on a path that may still hold it and no function returns holding a mutex without a deferred unlock (the retry loops of the transport callbacks cannot wedge themselves). RETRY: ConnectSend/ConnectReceive of every client transport and the server's create*MailBox functions never report success without installing a freshly created stream, and in the four transport callbacks a failed stream operation reaches the next attempt only through the re-create call (a dead stream is never retried forever). DUPLEX: the read path (ReadMessage/ReadHeader/ReadBody) and the write path (WriteMessage/Flush) of the record layer touch disjoint Machine fields, Encrypt on the write path seals into a fresh buffer, and NoiseGrpcConn.Read/Write do not write fields the other uses - which is what makes their concurrent execution under the read lock sound. LAYERS: every obligation of the delivery (C01), progress (C06), gbn concurrency (C18), record-layer (C08, C02) and framing (C16) checks is part of this check (the end-to-end behaviour is their composition). Not decided (runtime): delivery and completion under relay drops / stream re-creation and the interleavings of the four endpoint goroutines - no static argument in reach bounds those.",
 		[]string{"gRPC writes only through the net.Conn returned by the TransportCredentials handshake"},
 		runC05)
 	register("C11",
@@ -238,6 +238,11 @@ func runC05(c *Checker) {
 	ruleLOCKBAL(c, targetMbox)
 	ruleRETRY(c)
 	ruleDUPLEX(c)
+	// LAYERS: the end-to-end statement is the composition of the layers below; it fails as soon as
+	// one of them does. The obligations of the delivery (C01), progress (C06), concurrency (C18),
+	// record-layer (C08, C02) and framing (C16) checks are therefore part of this check, under
+	// "LAYER/<property>:<rule>" (their own not-decided parts stay not decided here).
+	importLayers(c, "C01", "C06", "C18", "C08", "C02", "C16")
 }
 
 // ruleLOCKBAL: in package pkg no mutex is acquired while it may already be held by the same
@@ -913,7 +918,11 @@ func runC17(c *Checker) {
 	ast.Inspect(e2m.Body, func(n ast.Node) bool {
 		if fs, ok := n.(*ast.ForStmt); ok {
 			if be, ok := fs.Cond.(*ast.BinaryExpr); ok {
+				// i < NumPassphraseWords, written either way round
 				if id, ok := be.Y.(*ast.Ident); ok && info.Uses[id] == types.Object(nw) && be.Op == token.LSS {
+					loopBound = true
+				}
+				if id, ok := be.X.(*ast.Ident); ok && info.Uses[id] == types.Object(nw) && be.Op == token.GTR {
 					loopBound = true
 				}
 			}
@@ -1245,5 +1254,35 @@ func ruleRemoteKey(c *Checker) {
 			c.decide(bad == "", "SIDFRESH", "ConnData.SetRemote|key kept only on success", sr.Pos(), "no error return is reachable after the store of remoteKey",
 				"SetRemote can fail (return at "+bad+") after it has already stored the remote key: the handshake aborts but this side has moved to the key-derived SID and the KK pattern, the peer has not")
 		}
+	}
+}
+
+// importLayers runs the checks of other properties on the same world and records their
+// obligations in c under the rule name LAYER/<id>:<rule>.
+func importLayers(c *Checker, ids ...string) {
+	n := 0
+	for _, id := range ids {
+		pr := registry[id]
+		if pr == nil {
+			c.anchorFail("check " + id)
+			continue
+		}
+		sub := newChecker(c.w, id, c.Tier)
+		func() {
+			defer func() {
+				if r := recover(); r != nil {
+					sub.fail("CHECKER-PANIC", fmt.Sprint(r), 0, "the imported check panicked")
+				}
+			}()
+			pr.run(sub)
+		}()
+		sub.applyFloors()
+		for _, o := range sub.Obls {
+			c.Obls = append(c.Obls, Obligation{Rule: "LAYER/" + id + ":" + o.Rule, Key: o.Key, Pos: o.Pos, Verdict: o.Verdict, Detail: o.Detail})
+			n++
+		}
+	}
+	if n < 200 {
+		c.fail("LAYER", "imported obligations", 0, fmt.Sprintf("only %d obligations imported from %v", n, ids))
 	}
 }
